@@ -11,16 +11,3 @@ func mustFA(s string) [32]byte {
 	}
 	return a
 }
-
-// Uniq returns the unsigned heights of l without duplicates, in order.
-func uniq(l []uint32) []uint32 {
-	seen := map[uint32]bool{}
-	var out []uint32
-	for _, h := range l {
-		if !seen[h] {
-			seen[h] = true
-			out = append(out, h)
-		}
-	}
-	return out
-}
